@@ -28,7 +28,7 @@ const c19Rule = "batches of concurrent scenarios; a scenario = 1..8 concurrent P
 
 type c19Ping struct {
 	V6     bool   `json:"v6"`
-	Script string `json:"script"` // early twice foreign request othertype truncated late none badfamily
+	Script string `json:"script"`        // early twice foreign request othertype truncated late none badfamily
 	Hdr    int    `json:"hdr,omitempty"` // shape of the carrying IP header / echo data of the injected reply (c19Frame)
 	Alt    int    `json:"alt,omitempty"` // othertype: which ICMP type carries the identifier
 }
